@@ -160,6 +160,26 @@ theorem C19_validate_iff (ts bits : Nat) (hash : Bytes) (prev : List Nat)
       | some t => by_cases hle : leToNat hash ≤ t <;> simp [hle, hgt]
     · simp [hgt]
 
+/-- **Monotone in the timestamp**: a header accepted with timestamp `ts` is accepted with any later one
+    (same bits, hash and predecessors) — the rule has a lower bound (the median) and no upper bound. -/
+theorem C19_validate_mono_timestamp (ts ts' bits : Nat) (hash : Bytes) (prev : List Nat)
+    (hb : bits < 2 ^ 32) (hh : hash.length = 32) (hle : ts ≤ ts')
+    (h : validate ts bits hash prev = .ok ()) : validate ts' bits hash prev = .ok () := by
+  rw [C19_validate_iff ts bits hash prev hb hh] at h
+  rw [C19_validate_iff ts' bits hash prev hb hh]
+  exact ⟨h.1, fun m hm => by have := h.2 m hm; omega⟩
+
+/-- **Monotone in the hash**: with the same bits, timestamp and predecessors, a numerically smaller (or
+    equal) 32-byte hash is accepted whenever a larger one is — proof-of-work is "hash ≤ target". -/
+theorem C19_validate_mono_hash (ts bits : Nat) (hash hash' : Bytes) (prev : List Nat)
+    (hb : bits < 2 ^ 32) (hh : hash.length = 32) (hh' : hash'.length = 32)
+    (hle : leToNat hash' ≤ leToNat hash)
+    (h : validate ts bits hash prev = .ok ()) : validate ts bits hash' prev = .ok () := by
+  rw [C19_validate_iff ts bits hash prev hb hh] at h
+  rw [C19_validate_iff ts bits hash' prev hb hh']
+  obtain ⟨⟨t, ht, hlt⟩, h2⟩ := h
+  exact ⟨⟨t, ht, by omega⟩, h2⟩
+
 /-- validation never panics (any field values, any predecessor list, duplicates allowed) -/
 theorem C19_validate_no_panic (ts bits : Nat) (hash : Bytes) (prev : List Nat)
     (hb : bits < 2 ^ 32) (hh : hash.length = 32) (s : String) :
